@@ -463,12 +463,13 @@ func substringFunc(arg1, arg2, arg3 query) func(query, iterator) interface{} {
 			panic(errors.New("substring() function first argument type must be number"))
 		}
 		// fix https://github.com/antchfx/xpath/issues/109
-		start = math.Round(start)
-		if start > float64(len(m)) {
-			return ""
-		}
+		// XPath rounds with floor(x + 0.5).
+		start = math.Floor(start + 0.5)
 		if arg3 == nil {
-			if start <= 0 {
+			if math.IsNaN(start) || start > float64(len(m)) {
+				return ""
+			}
+			if start < 1 {
 				return m
 			}
 			return m[int(start)-1:]
@@ -477,24 +478,19 @@ func substringFunc(arg1, arg2, arg3 query) func(query, iterator) interface{} {
 		if length, ok = functionArgs(arg3).Evaluate(t).(float64); !ok {
 			panic(errors.New("substring() function second argument type must be number"))
 		}
-		length = math.Round(length)
-		if length <= 0 {
+		length = math.Floor(length + 0.5)
+		// The characters at the positions p with start <= p < start+length.
+		end := start + length
+		if !(start > 1) {
+			start = 1
+		}
+		if end > float64(len(m)+1) {
+			end = float64(len(m) + 1)
+		}
+		if !(end > start) {
 			return ""
 		}
-		if length > float64(len(m)) {
-			length = float64(len(m))
-		}
-		if start < 0 {
-			length = length - math.Abs(start)
-			if length <= 1 {
-				return ""
-			}
-			return m[:int(length-1)]
-		}
-		if start == 0 {
-			return m[:int(length-1)]
-		}
-		return m[int(start-1):int(length+start-1)]
+		return m[int(start)-1 : int(end)-1]
 	}
 }
 
